@@ -40,6 +40,7 @@ BnodeOf(id) == IF id = "b1" THEN "_:b1" ELSE "_:x_2"
 SuffixChars(sf) == CASE sf = "none" -> <<>>
                      [] sf = "lang" -> <<"@", "e", "n">>
                      [] sf = "langreg" -> <<"@", "e", "n", "-", "G", "B">>
+                     [] sf = "langnum" -> <<"@", "e", "s", "-", "4", "1", "9">>          \* subtags after the first may hold digits
                      [] sf = "dt" -> <<"^", "^", "<">> \o Chars(IriOf("dt")) \o <<">">>
 TermChars(t) == CASE t.kind = "iri" -> <<"<">> \o Chars(IriOf(t.id)) \o <<">">>
                   [] t.kind = "bnode" -> Chars(BnodeOf(t.id))
@@ -52,14 +53,14 @@ Render(x) == TermChars(x.s) \o SepChars(x.sep) \o <<"<">> \o Chars(IriOf(x.p)) \
 AbsTerm(t) == CASE t.kind = "iri" -> <<"IRI", IriOf(t.id)>>
                 [] t.kind = "bnode" -> <<"BNode", BnodeOf(t.id)>>
                 [] t.kind = "lit" -> <<CASE t.suffix = "none" -> XSD_STRING
-                                         [] t.suffix \in {"lang", "langreg"} -> LANG_STRING
+                                         [] t.suffix \in {"lang", "langreg", "langnum"} -> LANG_STRING
                                          [] OTHER -> IriOf("dt"), "">>
 Abstract(x) == <<AbsTerm(x.s), IriOf(x.p), AbsTerm(x.o)>>
 Lit(content, suffix) == [kind |-> "lit", id |-> "", content |-> content, suffix |-> suffix]
 Node(kind, id) == [kind |-> kind, id |-> id, content |-> <<>>, suffix |-> "none"]
 Subjects == {Node("iri", "i1"), Node("iri", "i2"), Node("bnode", "b1")}
 NodeObjects == {Node("iri", "i2"), Node("bnode", "b2")}
-LitSuffixes == {"none", "lang", "langreg", "dt"}
+LitSuffixes == {"none", "lang", "langreg", "langnum", "dt"}
 
 \* ---------------------------------------------------------------- string helpers
 At(s, i) == IF i >= 0 /\ i < Len(s) THEN s[i + 1] ELSE "IndexError"        \* s[i], 0-based
